@@ -361,3 +361,112 @@ Proof.
   inversion H; subst c' out. apply (hist_small_ext (fold_left apply_cop ops (if cl_last_not_disconnected c then client_reset c else c)));
     [reflexivity|]. apply hs_cops. destruct (cl_last_not_disconnected c); [|exact Hs]. revert Hs. apply hist_small_ext. reflexivity.
 Qed.
+
+(* ================================================================== *)
+(* 7. a client frame of a connected client WITHOUT the history        *)
+(*    argument: whatever it receives (update messages without         *)
+(*    pre-spawn mappings, ticks below 2^31), the client invariants    *)
+(*    survive.  Used for a client whose server was stopped: what it   *)
+(*    applies is no longer what the server believes it holds.         *)
+(* ================================================================== *)
+
+Lemma mut_W_step c T e comps r :
+  cs_inv c -> hist_small c -> small_tick T -> apply_mutations c T e comps = Ok r ->
+  cs_inv (sr_client r) /\ hist_small (sr_client r).
+Proof.
+  intros Hinv Hsm HT H. unfold apply_mutations in H.
+  destruct (al_get e (cl_s2c c)) as [cid|] eqn:He; [|inversion H; subst; cbn; auto].
+  destruct (get_cent c cid) as [x|] eqn:Hx; [|inversion H; subst; cbn; auto].
+  destruct (ce_alive x) eqn:Ha; cbn [negb] in H; [|inversion H; subst; cbn; auto].
+  destruct (ce_hist x) as [h|] eqn:Hh; [|inversion H; subst; cbn; auto].
+  destruct (tick_gtb T (h_last h)) eqn:Eg; [|inversion H; subst; cbn; auto].
+  apply bind_ok in H. destruct H as [h' [Eh' H]]. inversion H; subst r. clear H. cbn [sr_client].
+  apply hist_set_last_tick_ok in Eh'. destruct Eh' as [Hl' _].
+  assert (Hm : ce_marker x = true).
+  { destruct (ce_marker x) eqn:Em; [reflexivity|]. destruct (ci_blank c Hinv cid x Hx Em) as [_ Hn]. congruence. }
+  set (x1 := mkCEnt true (ce_pre x) (ce_marker x) (Some h') (ce_comps x)).
+  set (c2 := set_cent c cid x1).
+  assert (Hinv2 : cs_inv c2) by (eapply cs_inv_set_cent; [exact Hinv|exact Hx|reflexivity|cbn; congruence]).
+  destruct (write_comps_props comps c2 e cid x1 Hinv2 He (get_cent_set_cent_same _ _ _) eq_refl Hm)
+    as [G1 G2 (x' & Hx' & Ha' & Hm' & Hh' & _ & _) G4 G5 G6].
+  split; [exact G1|].
+  intros cid0 x0 h0 Hx0 Hh0. destruct (N.eq_dec cid0 cid) as [->|Hne].
+  - rewrite Hx' in Hx0. inversion Hx0; subst x0. rewrite Hh' in Hh0. cbn in Hh0. inversion Hh0; subst h0.
+    rewrite Hl'. exact HT.
+  - destruct (G6 cid0 x0 Hne Hx0) as [Hy | ->]; [|discriminate].
+    unfold c2 in Hy. rewrite get_cent_set_cent_other in Hy by exact Hne. exact (Hsm cid0 x0 h0 Hy Hh0).
+Qed.
+
+Theorem mutate_messages_weak c c' out :
+  cs_inv c -> hist_small c -> (forall m, In m (cl_buffered c) -> small_tick (m_tick m)) ->
+  apply_mutate_messages c = Ok (c', out) -> cs_inv c' /\ hist_small c'.
+Proof.
+  intros Hinv Hsm Hsmall H. rewrite apply_mutate_messages_eq in H. apply bind_ok in H. destruct H as [st [E H]].
+  set (W := fun c0 : client => cs_inv c0 /\ hist_small c0).
+  assert (Wext : forall a b, cl_s2c b = cl_s2c a -> cl_c2s b = cl_c2s a -> cl_ents b = cl_ents a -> cl_next b = cl_next a -> W a -> W b).
+  { intros a b E1 E2 E3 E4 [A B]. split; [exact (cs_inv_ext a b E1 E2 E3 E4 A)|exact (hist_small_ext a b E3 B)]. }
+  assert (Hst : W (mm_client st)).
+  { refine (fold_res_rel (fun a b => W (mm_client a) -> W (mm_client b)) _ _ _ _ _ _ _ E (conj Hinv Hsm)); [auto|auto|].
+    intros [[[c0 kept] acks] evs] m st1 Hin Hs HK0. unfold mm_client in *; cbn [fst] in *. cbn [mm_step] in Hs.
+    destruct (tick_gtb (m_upd_tick m) (cl_upd_tick c)) eqn:Eg.
+    - inversion Hs; subst; cbn [fst]. exact HK0.
+    - apply bind_ok in Hs. destruct Hs as [r [Er Hs]].
+      assert (H1 : W (sr_client r)).
+      { refine (run_array_rel (fun a b => W a -> W b) _ (m_body m) _ _ _ c0 r Er HK0); [auto|auto|].
+        intros c1 [e comps] r0 _ E0 [A B]. cbn [fst snd] in E0. exact (mut_W_step c1 (m_tick m) e comps r0 A B (Hsmall m Hin) E0). }
+      change (match r with Continue ca => ca | Abort cb => cb end) with (sr_client r) in Hs.
+      destruct (cl_mticks (sr_client r)) as [mtk|].
+      + apply bind_ok in Hs. destruct Hs as [[mtk' done] [_ Hs]]. inversion Hs; subst; cbn [fst].
+        revert H1. apply Wext; reflexivity.
+      + inversion Hs; subst; cbn [fst]. exact H1. }
+  destruct st as [[[c0 kept] acks] evs]. inversion H; subst. unfold mm_client in Hst; cbn [fst] in Hst.
+  revert Hst. apply Wext; reflexivity.
+Qed.
+
+Lemma inbox_fold_hs us : forall c c1, hist_small c -> forallb no_maps us = true ->
+  (forall u, In u us -> small_tick (u_tick u)) ->
+  fold_left (res_step apply_update_message) us (Ok c) = Ok c1 -> hist_small c1.
+Proof.
+  induction us as [|u t IH]; intros c c1 Hs Hn Hst H.
+  - cbn in H. inversion H; subst. exact Hs.
+  - cbn [forallb] in Hn. apply andb_prop in Hn. destruct Hn as [Hn1 Hn2].
+    apply fold_res_cons_ok in H. destruct H as [c2 [E H]].
+    assert (Hm : u_maps u = []) by (unfold no_maps in Hn1; destruct (u_maps u); [reflexivity|discriminate]).
+    apply (IH c2 c1); [|exact Hn2|intros u0 Hu0; apply Hst; right; exact Hu0|exact H].
+    exact (hs_update_nomaps c u c2 (Hst u (or_introl eq_refl)) Hs Hm E).
+Qed.
+
+Theorem cframe_weak c ops c' out :
+  cs_inv c -> pu c -> hist_small c -> cl_status c = Connected ->
+  forallb no_maps (cl_inbox_upd c) = true -> (forall u, In u (cl_inbox_upd c) -> small_tick (u_tick u)) ->
+  (forall m, In m (cl_inbox_mut c ++ cl_buffered c) -> small_tick (m_tick m)) ->
+  client_frame c ops = Ok (c', out) ->
+  cs_inv c' /\ pu c' /\ hist_small c' /\ cl_status c' = Connected /\ cl_inbox_upd c' = [] /\ cl_inbox_mut c' = [] /\
+  (forall m, In m (cl_buffered c') -> In m (cl_inbox_mut c ++ cl_buffered c)).
+Proof.
+  intros Hinv Hpu Hsm Hc Hn Hsmu Hsmm H.
+  destruct (frame_clears_inbox c ops c' out Hc H) as [Hi Hst].
+  unfold client_frame in H. rewrite Hc, andb_false_r in H.
+  apply bind_ok in H. destruct H as [[c2 out2] [E H]]. inversion H; subst c' out. clear H.
+  unfold apply_replication in E. apply bind_ok in E. destruct E as [c1 [E1 E]].
+  change (fold_left (res_step apply_update_message) (cl_inbox_upd c) (Ok c) = Ok c1) in E1. fold (merge_mut_inbox c1) in E.
+  destruct (inbox_fold_props _ c (client_struct c) c1 Hinv (srel_self c (cs_inv_nodup c Hinv)) Hn E1) as (I1 & _ & P1 & [B1 B2]).
+  pose proof (inbox_fold_hs _ c c1 Hsm Hn Hsmu E1) as S1.
+  set (cm := merge_mut_inbox c1) in *.
+  assert (Im : cs_inv cm) by (revert I1; apply cs_inv_ext; reflexivity).
+  assert (Sm : hist_small cm) by (revert S1; apply hist_small_ext; reflexivity).
+  assert (Mm : forall m, In m (cl_buffered cm) -> In m (cl_inbox_mut c ++ cl_buffered c)).
+  { intros m Hin. unfold cm, merge_mut_inbox in Hin. cbn in Hin. apply fold_buffer_insert_in in Hin. rewrite B1, B2 in Hin. exact Hin. }
+  destruct (mutate_messages_weak cm c2 out2 Im Sm (fun m Hm => Hsmm m (Mm m Hm)) E) as (I2 & S2).
+  assert (P2 : pu c2). { apply (pu_mutate_messages cm c2 out2); [|exact E]. generalize (P1 Hpu). apply pu_ext; reflexivity. }
+  pose proof (pre_unmapped_cops_safe ops c2 I2 P2) as Hs. destruct (cops_step ops c2 I2 Hs) as [I3 G3].
+  destruct (cops_fields ops c2) as (K1 & K2 & K3 & K4).
+  destruct (mutate_messages_kept_acks cm c2 out2 E) as [Kb _].
+  split; [revert I3; apply cs_inv_ext; reflexivity|].
+  split; [generalize (pu_cops ops c2 I2 Hs P2); apply pu_ext; reflexivity|].
+  split; [apply (hist_small_ext (fold_left apply_cop ops c2)); [reflexivity|exact (hs_cops ops c2 S2)]|].
+  split; [exact Hst|]. split; [exact Hi|]. split.
+  - cbn [set_locals cl_inbox_mut]. rewrite K2, (mutate_messages_keep_inbox_mut cm c2 out2 E). reflexivity.
+  - intros m Hin. cbn [set_locals cl_buffered] in Hin. rewrite K3, Kb in Hin. apply filter_In in Hin. destruct Hin as [Hin _].
+    exact (Mm m Hin).
+Qed.
